@@ -669,7 +669,24 @@ fn runtime_program(rng: &mut Rng) -> String {
             _ => format!("(-{a})"),
         }
     }
-    match rng.below(8) {
+    match rng.below(10) {
+        8 | 9 => {
+            // values that are closures: partial applications, functions returned from functions,
+            // captured definitions, big integers
+            let a = rng.range(2, 40);
+            let b = rng.range(2, 40);
+            let templates: Vec<String> = vec![
+                format!("k = {a}\nadd = (x : int) => (y : int) => x + y + k\nadd {b}\n"),
+                format!("add = (x : int) => (y : int) => x + y\ntwice = (f : int -> int) => (z : int) => f (f z)\ntwice (add {a})\n"),
+                format!("compose = (f : int -> int) => (g : int -> int) => (x : int) => f (g x)\ninc = (n : int) => n + {a}\ndbl = (n : int) => n * {b}\ncompose inc dbl\n"),
+                format!("mk = (n : int) => (m = n * n; p = m + {a}; (q : int) => m + p + q)\nmk {b}\n"),
+                format!("pow : (int -> int -> int) = b => e => if e == 0 then 1 else b * pow b (e - 1)\npow {} {}\n", a + 90, b + 20),
+                format!("pick = (c : bool) => (t : type) => (x : t) => (y : t) => if c then x else y\npick ({a} < {b}) int\n"),
+                format!("ty = (n : int) => if n < {a} then int else bool\n(v : ty {b}) => v\n"),
+                format!("curry = (f : int -> int -> int -> int) => f {a} {b}\ncurry ((x : int) => (y : int) => (z : int) => x * y - z)\n"),
+            ];
+            templates[rng.below(templates.len())].clone()
+        }
         6 | 7 => {
             // long-running but terminating evaluations (thousands of steps): anything that meters
             // evaluation - a step or time budget, periodic work - is only consulted on these
@@ -894,9 +911,10 @@ fn dependent_program(rng: &mut Rng) -> String {
     let ys: Vec<String> = (0..arity).map(|i| format!("y{i}")).collect();
     let mut lambda = String::new();
     for y in &ys {
-        match rng.below(5) {
+        match rng.below(7) {
             0 => lambda.push_str(&format!("{y} => ")),
             1 => lambda.push_str(&format!("({y} : _) => ")),
+            2 => lambda.push_str(&format!("{{{y} : a}} => ")),
             _ => lambda.push_str(&format!("({y} : a) => ")),
         }
     }
